@@ -186,6 +186,10 @@ def rule_D3(tree: Tree) -> RuleResult:
     closes = [n for n in body_walk(run.node) if isinstance(n, ast.Call) and dotted(n.func) == "file.close"]
     ok = ok and len(opened) == 1 and len(closes) >= 2
     if ok:
+        sl = next((try_fold(k.value) for k in wr[0].keywords if k.arg == "snaplen"), None)
+        # a frame carries up to 2^14 bytes of record plaintext plus Ethernet/IPv6/TCP headers: the announced snaplen must not be smaller
+        ok = sl is None or sl == 0 or (isinstance(sl, int) and sl >= 16384 + 14 + 40 + 60)
+    if ok:
         rcfg = cfg_of(run.node)
         o_n, w_n = rcfg.node_of(opened[0]), rcfg.node_of(wr[0])
         # an output file that was opened is always given its pcapng header (Writer) — no return in between
